@@ -85,6 +85,10 @@ def mk(kind="list", n: int = 2):
         return None
     if kind == "float":
         return n / 2.0
+    if kind == "inf":
+        return float("inf") if n % 2 == 0 else float("-inf")
+    if kind == "nan":
+        return float("nan")
     if kind == "matrix":
         return [[i, i + 1] for i in range(n)]
     if kind == "lod":
